@@ -284,6 +284,79 @@ func runScratch(c *core.Ctx) []core.Obligation {
 		}
 	}
 
+	// a slice decoded into scratch and then copied out keeps its nil-ness: null decodes to a nil
+	// slice (encoding/json), make([]T, len(scratch)) turns it into an empty one
+	{
+		n := 0
+		for _, fn := range fns {
+			for _, blk := range fn.Blocks {
+				for _, in := range blk.Instrs {
+					mk, ok := in.(*ssa.MakeSlice)
+					if !ok {
+						continue
+					}
+					lenCall, ok := mk.Len.(*ssa.Call)
+					if !ok {
+						continue
+					}
+					if bi, isB := lenCall.Call.Value.(*ssa.Builtin); !isB || bi.Name() != "len" {
+						continue
+					}
+					src, ok := lenCall.Call.Args[0].(*ssa.UnOp)
+					if !ok {
+						continue
+					}
+					al, ok := src.X.(*ssa.Alloc)
+					if !ok {
+						continue
+					}
+					// the alloc is handed to a decode call by address
+					decoded := false
+					for _, ref := range *al.Referrers() {
+						if cv, isCv := ref.(*ssa.Convert); isCv {
+							for _, r2 := range *cv.Referrers() {
+								if _, isCall := r2.(*ssa.Call); isCall {
+									decoded = true
+								}
+							}
+						}
+					}
+					if !decoded {
+						continue
+					}
+					n++
+					key := "scratch-copy:nil-preserved:" + shortName(fn)
+					guarded := false
+					for _, e := range dominatingEdges(blk) {
+						bo, isB := e.ifi.Cond.(*ssa.BinOp)
+						if !isB || !(isNilConst(bo.X) || isNilConst(bo.Y)) {
+							continue
+						}
+						other := bo.X
+						if isNilConst(bo.X) {
+							other = bo.Y
+						}
+						ld, isLd := other.(*ssa.UnOp)
+						if !isLd || ld.X != ssa.Value(al) {
+							continue
+						}
+						if (bo.Op == token.NEQ && e.succ == 0) || (bo.Op == token.EQL && e.succ == 1) {
+							guarded = true
+						}
+					}
+					if guarded {
+						b.addP([]string{"C02"}, core.Discharged, key, c.InstrPos(mk), "the copy is made only when the decoded slice is not nil")
+					} else {
+						b.addP([]string{"C02"}, core.Violation, key, c.InstrPos(mk), shortName(fn)+" copies the slice decoded into its scratch variable with make([]T, len(scratch)) whether or not it is nil: a null element becomes an empty non-nil slice where encoding/json stores a nil one ({\"k\":null} into map[string][]string)")
+					}
+				}
+			}
+		}
+		if n == 0 {
+			b.addP([]string{"C02"}, core.Info, "scratch-copy:nil-preserved", "-", "no copy-out of a decoded scratch slice found")
+		}
+	}
+
 	// fixed-size arrays: when the input closes the array early, the elements it did not provide are
 	// set to zero (encoding/json does; a pre-populated target must not keep its tail)
 	if fn := c.Lookup("json.(decoder).decodeArray"); fn != nil {
@@ -352,6 +425,20 @@ func runScratch(c *core.Ctx) []core.Obligation {
 					}
 				}
 				back(blk)
+				nullArm := false
+				for _, e := range dominatingEdges(blk) {
+					if call, isCall := e.ifi.Cond.(*ssa.Call); isCall && e.succ == 0 {
+						if f := staticCallee(call.Common()); f != nil && f.Name() == "hasNullPrefix" {
+							nullArm = true // null leaves an array untouched, like encoding/json
+						}
+					}
+				}
+				if nullArm {
+					continue
+				}
+				if !early && !afterLoop(body)[blk] {
+					early = true // a success return that never enters the element loop (an empty-array fast path)
+				}
 				if !early {
 					continue
 				}
@@ -365,7 +452,7 @@ func runScratch(c *core.Ctx) []core.Obligation {
 							}
 						}
 					}
-					if x == h {
+					if x == h && h.Dominates(blk) {
 						break
 					}
 				}
@@ -379,7 +466,7 @@ func runScratch(c *core.Ctx) []core.Obligation {
 		case n == 0:
 			b.addP([]string{"C02"}, core.Undecided, key, c.FuncPos(fn), "no early success return found inside the element loop of decodeArray")
 		case bad != "":
-			b.addP([]string{"C02"}, core.Violation, key, bad, "decodeArray returns success from inside the element loop (the input closed the array early) without zeroing the remaining elements: decoding [9] into a pre-populated [3]int{1,2,3} leaves [9 2 3] where encoding/json gives [9 0 0]")
+			b.addP([]string{"C02"}, core.Violation, key, bad, "decodeArray returns success before all elements were provided (the input closed the array early, or was empty) without zeroing the remaining elements: decoding [9] (or []) into a pre-populated [3]int{1,2,3} leaves [9 2 3] ([1 2 3]) where encoding/json gives [9 0 0] ([0 0 0])")
 		default:
 			b.addP([]string{"C02"}, core.Discharged, key, c.FuncPos(fn), fmt.Sprintf("%d early success return(s), each after the tail of the array is zeroed", n))
 		}
@@ -387,6 +474,29 @@ func runScratch(c *core.Ctx) []core.Obligation {
 		b.addP([]string{"C02"}, core.Undecided, "array-tail-zeroed", "-", "json.(decoder).decodeArray not found")
 	}
 	return b.out
+}
+
+// afterLoop: the blocks reachable from the exits of a loop (the code that runs after it).
+func afterLoop(body map[*ssa.BasicBlock]bool) map[*ssa.BasicBlock]bool {
+	out := map[*ssa.BasicBlock]bool{}
+	var work []*ssa.BasicBlock
+	for blk := range body {
+		for _, sc := range blk.Succs {
+			if !body[sc] {
+				work = append(work, sc)
+			}
+		}
+	}
+	for len(work) > 0 {
+		blk := work[len(work)-1]
+		work = work[:len(work)-1]
+		if out[blk] {
+			continue
+		}
+		out[blk] = true
+		work = append(work, blk.Succs...)
+	}
+	return out
 }
 
 // dependsOnCall: v is computed from the result of call (so the store is the decode result itself,
@@ -455,6 +565,51 @@ func runReuse(c *core.Ctx) []core.Obligation {
 			b.addP(s.props, core.Discharged, key, c.FuncPos(fn), fmt.Sprintf("%d allocation(s) into the destination, each under a nil test", n))
 		}
 	}
+	// an interface target holding a pointer: encoding/json decodes through that pointer only when
+	// it is not nil (indirect: e.Kind() == Pointer && !e.IsNil()); a nil typed pointer is just a
+	// value to be replaced by what the input holds
+	if fn := c.Lookup("json.(decoder).decodeInterface"); fn != nil {
+		key := "reuse:json.(decoder).decodeInterface:held-pointer-non-nil"
+		n, bad := 0, ""
+		for _, blk := range fn.Blocks {
+			for _, ins := range blk.Instrs {
+				call, ok := ins.(*ssa.Call)
+				if !ok {
+					continue
+				}
+				f := staticCallee(call.Common())
+				if f == nil || f.Name() != "Parse" {
+					continue
+				}
+				n++
+				guarded := false
+				for _, e := range dominatingEdges(blk) {
+					conds := []ssa.Value{e.ifi.Cond}
+					want := 1 // IsNil() false
+					if u, isNot := e.ifi.Cond.(*ssa.UnOp); isNot && u.Op == token.NOT {
+						conds, want = []ssa.Value{u.X}, 0
+					}
+					for _, cv := range conds {
+						if cc, isCall := cv.(*ssa.Call); isCall && calleeName(cc.Common()) == "(reflect.Value).IsNil" && e.succ == want {
+							guarded = true
+						}
+					}
+				}
+				if !guarded {
+					bad = c.InstrPos(call)
+				}
+			}
+		}
+		switch {
+		case n == 0:
+			b.addP([]string{"C02"}, core.Info, key, c.FuncPos(fn), "decodeInterface does not decode through a held pointer")
+		case bad != "":
+			b.addP([]string{"C02"}, core.Violation, key, bad, "decodeInterface decodes through the pointer held by the interface without having tested that it is not nil: a target such as any((*int)(nil)) given 5 fails with \"Unmarshal(nil *int)\" where encoding/json replaces the interface's content with the decoded value")
+		default:
+			b.addP([]string{"C02"}, core.Discharged, key, c.FuncPos(fn), "the held pointer is followed only when IsNil() is false")
+		}
+	}
+
 	return b.out
 }
 
